@@ -7,6 +7,7 @@ import (
 	"fmt"
 	"os"
 	"sort"
+	"strconv"
 	"strings"
 	"sync"
 	"time"
@@ -86,19 +87,20 @@ type tvTape struct {
 }
 
 type Explorer struct {
-	w     *World
-	h     HarnessSpec
-	cfg   Config
-	fn    *ssa.Function
-	mu    sync.Mutex
-	cond  *sync.Cond
-	front [][]Decision
-	act   int
-	stop  bool
-	st    Stats
-	tvMax int
-	start time.Time
-	cbWG  sync.WaitGroup
+	w        *World
+	h        HarnessSpec
+	cfg      Config
+	fn       *ssa.Function
+	mu       sync.Mutex
+	cond     *sync.Cond
+	front    [][]Decision
+	act      int
+	stop     bool
+	st       Stats
+	tvMax    int
+	tvStride int
+	start    time.Time
+	cbWG     sync.WaitGroup
 }
 
 func findingKey(f *Finding) string {
@@ -192,7 +194,11 @@ func (x *Explorer) done(r *PathResult) {
 			"outcome": r.Kind, "decisions": compactDecisions(r.Trace), "inputs": r.Sample, "steps": r.Steps, "witnesses": r.Reached,
 		})
 	}
-	if r.Kind == "done" && len(r.Findings) == 0 && len(s.TVTapes) < x.tvMax && r.Sample != nil && r.Obs != nil {
+	// translation-validation sample: the first few passing paths, then the passing paths met at path counts that
+	// are powers of two or multiples of tvStride (spread over the whole exploration: later paths carry non-trivial
+	// schedules)
+	if r.Kind == "done" && len(r.Findings) == 0 && len(s.TVTapes) < x.tvMax && r.Sample != nil && r.Obs != nil &&
+		(len(s.TVTapes) < 6 || s.Paths&(s.Paths-1) == 0 || (x.tvStride > 0 && s.Paths%x.tvStride == 0)) {
 		s.TVTapes = append(s.TVTapes, tvTape{Tape{Harness: x.h.Func, Pkg: x.h.Pkg, Params: x.h.Params, Preempt: x.h.Preempt, Nondet: r.Sample, Choices: r.Choices, Sched: r.Sched}, r.Obs})
 	}
 	if x.h.MaxPaths > 0 && s.Paths >= x.h.MaxPaths && !x.stop {
@@ -246,7 +252,13 @@ func explore(w *World, h HarnessSpec, workers int) (*Stats, error) {
 	if h.MaxMs > 0 {
 		cfg.TimeoutMs = h.MaxMs
 	}
-	x := &Explorer{w: w, h: h, cfg: cfg, fn: fn, tvMax: 12, start: time.Now()}
+	x := &Explorer{w: w, h: h, cfg: cfg, fn: fn, tvMax: 20, start: time.Now()}
+	if v, err := strconv.Atoi(os.Getenv("GOSYM_TVMAX")); err == nil && v > 0 {
+		x.tvMax = v // stress runs of the translation validation (with GOSYM_TVSTRIDE: every n-th passing path)
+	}
+	if v, err := strconv.Atoi(os.Getenv("GOSYM_TVSTRIDE")); err == nil && v > 0 {
+		x.tvStride = v
+	}
 	x.cond = sync.NewCond(&x.mu)
 	x.st = Stats{Outcomes: map[string]int{}, Reached: map[string]int{}, FindingN: map[string]int{}, Inconcl: map[string]int{},
 		Unsupported: map[string]int{}, Unwound: map[string]int{}, Internal: map[string]int{}, Fns: map[string]int{}}
